@@ -567,7 +567,9 @@ def run(ctx):
             n_impl += 1
     ctx.floor("socket send_data implementations", n_impl, 1)
     check_helper(ctx)
-    check_process_send_queue(ctx)
-    check_send_message(ctx)
+    from .. import refmodels
+
+    refmodels.guarded(ctx, "C10.P3", ["HsmsProtocol._process_send_queue"], check_process_send_queue)
+    refmodels.guarded(ctx, "C10.P4", ["Protocol.send_message"], check_send_message)
     check_block_send_info(ctx)
     check_linger(ctx)
